@@ -1733,6 +1733,7 @@ pub fn run(args: &Args, rep: &mut Report) {
     let mut reported: BTreeSet<String> = Default::default();
     let mut par_obs = (0u64, 0u64);
     for (label, case) in todo {
+        mark_current(&case.lines());
         drv.begin_case();
         let res = eval_case(&case, Some(&mut drv), &pools, &tune);
         let nodes = case.shape.nodes();
